@@ -11,7 +11,7 @@ from . import absstate, env, recorder, tlc
 PROPOSALS = ("bootstrap", "semi-adapted", "fully-adapted")
 
 
-def make_data(n, dims, grid, seed, outlier_prob):
+def make_data(n, dims, grid, seed, outlier_prob, offset=0.0):
     """Data points the way load_data builds them (compute_outlier_prob), on integer likelihood tables."""
     from phyclone.data.base import DataPoint
     from phyclone.data.pyclone import compute_outlier_prob
@@ -21,7 +21,8 @@ def make_data(n, dims, grid, seed, outlier_prob):
     for i in range(n):
         tab = rs.randint(1, 9, size=(dims, grid)).astype(float)
         op = compute_outlier_prob(outlier_prob, (1, 3, 2)[i % 3])     # cluster sizes 1-3, as a clustered input gives
-        data.append(DataPoint(i, np.ascontiguousarray(np.log(tab)), name="m%d" % i, outlier_prob=op[0], outlier_prob_not=op[1]))
+        # offset > 0: a "heavy" data point (a large cluster / many reads): every log-likelihood lowered by `offset`
+        data.append(DataPoint(i, np.ascontiguousarray(np.log(tab) - offset), name="m%d" % i, outlier_prob=op[0], outlier_prob_not=op[1]))
     return data
 
 
@@ -55,13 +56,13 @@ DEFAULTS = dict(burnin=1, concentration_update=True, concentration_value=1.0, ma
                 resample_threshold=0.5, thin=1, subtree_update_prob=0.0)
 
 
-def run_one(n, dims, seed, opts, grid=5, want_events=True):
+def run_one(n, dims, seed, opts, grid=5, want_events=True, offset=0.0):
     """Run one chain; returns dict(error, problems[list of (kind,msg)], spec_trace, n_entries, results)."""
     from phyclone.tree import Tree, FSCRPDistribution, TreeJointDistribution
 
     o = dict(DEFAULTS)
     o.update(opts)
-    data = make_data(n, dims, grid, seed, o["outlier_prob"])
+    data = make_data(n, dims, grid, seed, o["outlier_prob"], offset=offset)
     rec = recorder.ChainRecorder() if want_events else None
     res, err = recorder.run_chain(data, seed, rec=rec, **o)
     out = {"error": err, "problems": [], "spec_trace": None, "n_entries": 0, "opts": o, "n": n, "dims": dims, "seed": seed}
